@@ -36,9 +36,10 @@ S3 == {<<s, t, u>> : s \in RandomSubset(NPath3, Steps), t \in RandomSubset(NPath
                      u \in RandomSubset(NPath3, Steps)}
 (* paths derived from the real position of each node: every subsequence of its root path that keeps
    the last level; a step after a gap is an "anywhere" step, the others are all direct or all anywhere;
-   each step spelled in full, by class only, or by field and index only *)
+   each step spelled in full, by class only, by field and index only, or by index and class without the field
+   (the latter only for paths through a sequence, otherwise it is the class-only spelling) *)
 Variant(st, v, anyw) == [any |-> anyw,
-                         f |-> IF v = 2 THEN "none" ELSE st[1],
+                         f |-> IF v \in {2, 4} THEN "none" ELSE st[1],
                          i |-> IF v = 2 THEN 0 - 1 ELSE st[2],
                          c |-> IF v = 3 THEN "none" ELSE st[3]]
 DerivedOf(n) ==
@@ -52,7 +53,8 @@ DerivedOf(n) ==
                           [j \in 1..Len(ix) |->
                              Variant(full[ix[j]], v,
                                      IF j = 1 THEN (ix[1] # 1 \/ base # 0) ELSE (ix[j] # ix[j - 1] + 1 \/ base = 1))]
-    IN {Mk(K, v, base) : K \in keeps, v \in {1, 2, 3}, base \in {0, 1, 2}}
+        Vs(K) == {1, 2, 3} \cup (IF \E j \in K : full[j][2] >= 0 THEN {4} ELSE {})
+    IN UNION {{Mk(K, v, base) : v \in Vs(K), base \in {0, 1, 2}} : K \in keeps}
 Derived == UNION {DerivedOf(n) : n \in NS}
 
 Paths == P1 \cup (IF NObj <= 2 THEN P2 ELSE S2) \cup S3 \cup Derived
